@@ -148,14 +148,16 @@ BUILTINS = {"abs": 1, "min": 2, "max": 2, "sqrt": 1, "pow": 2, "floor": 1, "ceil
             "array_remove_at": 2, "array_slice": 3, "array_concat": 2, "range": 2,
             "map": 2, "filter": 2, "reduce": 3, "str_index_of": 2, "println": 1, "print": 1}
 BARG = ["int", "bool", "str", "flt", "arr", "sarr", "fn"]
+BARG2 = BARG + ["st", "en", "tup", "un"]      # aggregate / enum arguments, for built-ins of up to two parameters
 # literal arguments that keep every index-taking builtin in range when the types happen to be right
-BLIT = {"int": "1", "bool": "true", "str": '"ab"', "flt": "1.5", "arr": "[1, 2, 3]", "sarr": '["x", "y", "z"]', "fn": "inc"}
+BLIT = {"int": "1", "bool": "true", "str": '"ab"', "flt": "1.5", "arr": "[1, 2, 3]", "sarr": '["x", "y", "z"]', "fn": "inc",
+        "st": "vst", "en": "ven", "tup": "vtup", "un": "vun"}
 
 
 def fam_builtins(tier):
     for name in sorted(BUILTINS):
         k = BUILTINS[name]
-        pool = BARG if (k <= 2 or tier != "quick") else ["int", "bool", "str", "arr", "sarr"]
+        pool = BARG2 if k <= 2 else (BARG if tier != "quick" else ["int", "bool", "str", "arr", "sarr"])
         for tup in itertools.product(pool, repeat=k):
             call = "(%s %s)" % (name, " ".join(BLIT[t] for t in tup))
             yield ("builtin-stmt %s(%s)" % (name, ",".join(tup)), prog("    %s\n" % call))
@@ -451,7 +453,54 @@ def fam_nestctl(tier):
             yield ("nestctl %s / %s" % (on, inn), prog(body))
 
 
-FAMILIES = [fam_binop, fam_unop, fam_slots, fam_builtins, fam_scope, fam_consts, fam_literals, fam_globals, fam_wellformed, fam_samenames, fam_structperm, fam_nestctl]
+def fam_codesize(tier):
+    """function bodies whose bytecode crosses the code buffer's growth boundaries (4096, 8192, ...) with every alignment of a
+    wide instruction (PUSH_I64 / PUSH_F64: 9 bytes) relative to the boundary: 16-byte statements, preceded by 0..15 statements
+    of 5 bytes (5 is invertible mod 16, so the sweep reaches every offset)."""
+    for boundary in ((4096,) if tier == "quick" else (4096, 8192, 16384)):
+        n16 = boundary // 16 + 8
+        for pad in range(16):
+            body = "    let mut x: int = 0\n    let mut f: float = 0.5\n    let mut bb: bool = false\n"
+            body += "    set bb true\n" * pad
+            body += "".join("    set x (+ x %d)\n" % (1000000007 + i) if i % 3 else "    set f (+ f %d.25)\n" % (i % 7) for i in range(n16))
+            body += "    (println x)\n    (println (< f 1000000.0))\n    (println bb)\n"
+            yield ("codesize boundary %d pad %d" % (boundary, pad), prog(body))
+
+
+def fam_selfshadow(tier):
+    """an inner-block let that shadows an outer variable x and whose initialiser mentions the OUTER x in one position of every
+    expression kind (the back ends must read the outer variable before the inner one exists)"""
+    ctx = {
+        "binop-left": "(+ x 1)", "binop-right": "(- 10 x)", "both": "(* x x)", "call-arg": "(inc x)", "nested-call": "(inc (inc x))",
+        "cond-condition": "(cond ((> x 0) 1) (else 2))", "cond-value": "(cond ((> vint 0) x) (else 2))", "cond-else": "(cond ((> vint 1000) vint) (else x))",
+        "cond-all": "(cond ((> x 1000) x) (else (+ x 1)))", "unary": "(- x)", "field-of-struct-arg": "(+ vst.x x)", "array-elem": "(at [x, 2] 0)",
+        "if-expr-then": "(cond (vbool x) (else 0))", "comparison-as-int": "(cond ((== x 7) 70) (else 71))", "infix": "(x + vint * 2)",
+        "match-expr": "match vun { L(q) => (+ q.v x), R(q) => x }",
+    }
+    outers = {"param": "", "local": "    let x: int = 7\n", "local-mut": "    let mut x: int = 7\n"}
+    for on, decl in outers.items():
+        for cn, e in ctx.items():
+            for block in ("if", "while", "bare-if-else", "for"):
+                if on == "param":
+                    e2 = e.replace("x", "vint").replace("vvint", "vint").replace("vst.vint", "vst.x")
+                    name = "vint"
+                else:
+                    e2, name = e, "x"
+                inner = "let %s: int = %s\n        (println %s)" % (name, e2, name)
+                body = decl
+                if block == "if":
+                    body += "    if vbool {\n        %s\n    } else {}\n" % inner
+                elif block == "while":
+                    body += "    let mut w: int = 0\n    while (< w 2) {\n        set w (+ w 1)\n        %s\n    }\n" % inner
+                elif block == "bare-if-else":
+                    body += "    if false { (println 0) } else {\n        %s\n    }\n" % inner
+                else:
+                    body += "    for fi in (range 0 2) {\n        %s\n    }\n" % inner
+                body += "    (println %s)\n" % name
+                yield ("selfshadow %s in %s of %s" % (cn, block, on), prog(body))
+
+
+FAMILIES = [fam_binop, fam_unop, fam_slots, fam_builtins, fam_scope, fam_consts, fam_literals, fam_globals, fam_wellformed, fam_samenames, fam_structperm, fam_nestctl, fam_codesize, fam_selfshadow]
 
 # ------------------------------------------------------------------------------------------ running
 _ST = {}
